@@ -3,7 +3,8 @@
    [ghost]): who owns each token, which approval was given for it since its last move and
    until when, which operator each owner appointed and until when.  A call that moved a
    token or set an approval must have been authorised by somebody those tables entitle at
-   the current ledger; an approval the getters report must be one the tables hold live. *)
+   the current ledger; the approvals and operators the getters report must be exactly the ones
+   the tables hold live at the current ledger. *)
 From SC Require Import Lib.Prelude Lib.Int Lib.Host Model.Nft Run.NftCommon.
 Local Open Scope N_scope.
 
@@ -33,15 +34,17 @@ Definition c11_legal (g : ghost) (cl : call) (o : outcome) : bool :=
       end
   end.
 
-(* judged against the reference AFTER the call: whatever approval the getters report is live
-   in the reference (so: cleared by every move, not inherited from a previous owner, gone
-   after live_until and after a revoke) *)
+(* judged against the reference AFTER the call: the getters report exactly the approvals / operators
+   the reference holds live.  "Only those": cleared by every move, not inherited from a previous
+   owner, gone after live_until and after a revoke.  "All of those": an approval or operator that was
+   given and is neither expired, revoked nor cleared by a move is still there, however many ledgers
+   have passed (approvals are temporary only up to their live_until_ledger). *)
 Definition c11_obs_ok (g : ghost) (ob : obs) : bool :=
-  forallb (fun p : N * option addr => match snd p with
-                    | Some x => oaddr_eqb (live_appr g (fst p)) (Some x)
-                    | None => true
-                    end) (o_appr ob)
-  && forallb (fun p : (addr * addr) * bool => if snd p then live_oper g (fst (fst p)) (snd (fst p)) else true) (o_oper ob).
+  (* "its current owner": the owner the authority judgments refer to is the one owner_of reports -
+     ownership changes only by the successful moves and mints the reference has replayed *)
+  forallb (fun p : N * option addr => oaddr_eqb (snd p) (rget (g_own g) (fst p))) (o_owner ob)
+  && forallb (fun p : N * option addr => oaddr_eqb (snd p) (live_appr g (fst p))) (o_appr ob)
+  && forallb (fun p : (addr * addr) * bool => Bool.eqb (snd p) (live_oper g (fst (fst p)) (snd (fst p)))) (o_oper ob).
 
 Definition c11_step_ok (g : ghost) (x : call * outcome * obs) : bool :=
   let '(cl, o, ob) := x in
